@@ -162,6 +162,7 @@ def run(ctx):
     oracle = Counter()
     cur_obs = ""
     reported = {}
+    hist_verified = True
     verified = True   # does the current history run the DAG signature verifier before the callback?
 
     def report(sig, what, i):
@@ -182,7 +183,7 @@ def run(ctx):
             cur_obs = line.split(" ", 2)[2] if line.count(" ") >= 2 else ""
             created, deactivations = set(), {}
             labels[re.sub(r"\d+$", "N", op.get("label", "?")) + ("/callback-only" if op.get("noVerify") else "/verifier+callback")] += 1
-            verified = not op.get("noVerify")
+            verified = hist_verified = not op.get("noVerify")
             continue
         if op["op"] == "verify":
             n_dag += 1
@@ -193,7 +194,10 @@ def run(ctx):
             continue
         if op["op"] != "pair":
             continue
-        verified = bool(op.get("verified", verified))
+        if "cb" in op:   # per-delivery flag (false is omitted by the harness); older replay files: history-level mode
+            verified = bool(op.get("verified", False))
+        else:
+            verified = hist_verified
         m = re.match(r"pair (\S+) (\S+) \[([^\]]*)\] (.*)$", line)
         if not m:
             report("unparseable-line", "harness output line not understood", i)
